@@ -829,7 +829,8 @@ impl History {
         let payload = if empty { String::new() } else { format!("{}:{}", self.actors[a].name, self.msg_counter) };
         let pkid = if qos > 0 { self.pkid(a) } else { 0 };
         // a topic alias that this connection has used before stands for the topic: send it empty (half of the time)
-        let alias_known = props.as_ref().and_then(|p| p.topic_alias).map(|al| self.actors[a].out_aliases.values().any(|v| *v == al) && self.model.conns[link].aliases_in.contains_key(&al)).unwrap_or(false);
+        // (for *this* topic: an alias may have been re-mapped since)
+        let alias_known = props.as_ref().and_then(|p| p.topic_alias).map(|al| self.actors[a].out_aliases.get(topic) == Some(&al) && self.model.conns[link].aliases_in.get(&al).map(|t| t == topic).unwrap_or(false)).unwrap_or(false);
         let wire_topic: &[u8] = if alias_known && self.rng.chance(1, 2) { b"" } else { topic.as_bytes() };
         let p = mk_publish(false, qos, pkid, retain, wire_topic, payload.as_bytes());
         if qos == 2 {
@@ -1378,6 +1379,13 @@ impl History {
         if self.rng.below(1000) < self.profile.pub_alias_pm && !self.actors[a].guarded {
             any = true;
             let next = self.actors[a].out_aliases.len() as u16 + 1;
+            // now and then an alias that stands for another topic is re-mapped to this one (MQTT 5 3.3.2.3.4)
+            if !self.actors[a].out_aliases.contains_key(topic) && !self.actors[a].out_aliases.is_empty() && self.rng.chance(1, 3) {
+                let (old_topic, n) = self.actors[a].out_aliases.iter().next().map(|(t, n)| (t.clone(), *n)).unwrap();
+                self.actors[a].out_aliases.remove(&old_topic);
+                self.actors[a].out_aliases.insert(topic.to_owned(), n);
+                self.corner("publisher-alias-remapped");
+            }
             let alias = *self.actors[a].out_aliases.entry(topic.to_owned()).or_insert(next);
             p.topic_alias = Some(alias);
         }
